@@ -21,8 +21,8 @@ CFG = dict(
          "headers / parts) and sampled 2-3 field combinations, recorded as groups of <= 30 edits of a base call (a "
          "sample also as flat cases); alterations of linear proofs and of entry inclusion proofs (Leaf, Width, terms, "
          "digest, Eh); the forged sessions of coq/Proofs/Refuted.v on the real verifiers (families A: closed by d34d669, B: "
-         "lagging headers, C: short inclusion proof, D: over-long inclusion proofs with VerifyDualProof and "
-         "VerifyDualProofV2); the real pkg/client code "
+         "lagging headers, C: short inclusion proof, D: over-long inclusion proofs, closed by c59ab5b, with "
+         "VerifyDualProof and VerifyDualProofV2); the real pkg/client code "
          "(VerifiedGet, VerifiedGetAt, VerifiedGet of a reference, VerifiedTxByID, VerifiedSet, VerifiedSetReference, "
          "VerifiedZAdd) driven offline through a mocked ServiceClient that answers from real pkg/database.DB instances and "
          "signs states like pkg/server: the genuine database A (the client's locally stored state is always a state of A, "
@@ -48,9 +48,8 @@ CFG = dict(
         "leafFor, advanceLinearHash, VerifyLinearProof, VerifyLinearAdvanceProof, VerifyDualProof, VerifyDualProofV2, "
         "EntrySpecDigest_v0/_v1, TxEntryDigest_v1_1/_v1_2, store.VerifyInclusion; the Merkle verifiers and their "
         "soundness / inclusion completeness come from C08 (coq/Merkle). The honest proofs of Proofs/Gen.v (what the "
-        "completeness theorems are about) are compared with the store's on every run; NOT modelled: the generator of "
-        "consistency proofs (completeness of dual proofs is relative to its output being accepted; checked by the "
-        "run), the AHtree digest log, the pkg/client and pkg/verification flows (which side is "
+        "completeness theorems are about, consistency terms = cons_ref of coq/Merkle/AHTCons.v) are compared with the "
+        "store's on every run; the AHtree digest-log model and the completeness of VerifyConsistency come from C08, the pkg/client and pkg/verification flows (which side is "
         "trusted is reflected in the theorem statements and in Proofs/Session.v; the client code itself is exercised "
         "offline by the harness with the database as oracle), pkg/database assembly, protobuf conversions, the state "
         "signature (ECDSA)",
@@ -59,8 +58,7 @@ CFG = dict(
         "Go values the model cannot represent are not generated: negative Version / NEntries, TxMetadata with an extra "
         "attribute longer than 256 bytes (the Go type refuses it)",
     ],
-    assumptions=["completeness of VerifyDualProof / VerifyDualProofV2 is relative to the consistency terms being accepted "
-                 "by ahtree.VerifyConsistency; client_step (Proofs/Session.v) models the source/target selection and state "
+    assumptions=["client_step (Proofs/Session.v) models the source/target selection and state "
                  "advance of VerifiedTxByID / verifiedGet only (no signature, no returned-Tx comparison)",
                  "proof terms and digests are 32-byte values (Go type [sha256.Size]byte)",
                  "headers inside proofs satisfy hdr_valid (Go field ranges, Version in {0,1}, NEntries < 2^16 in version 0 "
